@@ -25,6 +25,21 @@ def _up(s):
     return s.upper()
 
 
+_REGION = []
+
+
+def _region_class():
+    if not _REGION:
+        from bionumpy.bnpdataclass import bnpdataclass
+        from bionumpy.datatypes import Interval
+
+        @bnpdataclass
+        class Region(Interval):
+            strand: str
+        _REGION.append(Region)
+    return _REGION[0]
+
+
 def check_group(g):
     import bionumpy as bnp
     from bionumpy.sequence import get_reverse_complement, translate_dna_to_protein
@@ -36,7 +51,10 @@ def check_group(g):
     if mode == "seq":
         texts = ["".join(v["s"]) for v in g]
         want = ["".join(v["rc"]) for v in g]
-        encs = [("ascii", None, lambda t: True), ("ACGT", bnp.DNAEncoding, lambda t: "N" not in t.upper()), ("ACGTN", ACGTnEncoding, lambda t: True)]
+        from bionumpy.encodings.alphabet_encoding import ACTGEncoding, ACTGnEncoding
+        # the same four letters in another order of the alphabet (ACTG, as used for 2-bit k-mers), with and without N
+        encs = [("ascii", None, lambda t: True), ("ACGT", bnp.DNAEncoding, lambda t: "N" not in t.upper()), ("ACGTN", ACGTnEncoding, lambda t: True),
+                ("ACTG", ACTGEncoding, lambda t: "N" not in t.upper()), ("ACTGN", ACTGnEncoding, lambda t: True)]
         for ename, enc, ok in encs:
             sel = [i for i, t in enumerate(texts) if ok(t)]
             if not sel:
@@ -133,6 +151,22 @@ def check_group(g):
                             whole = Bed6(["c"], [0], [len(t)], ["x"], [0], ["+"])
                             out.append(gs.extract_intervals(whole, stranded=True).tolist())
                             return out
+                        def text_strand():
+                            # the same intervals in a user-defined table whose strand column is plain text
+                            from bionumpy.genomic_data import GenomicSequence
+                            gs = GenomicSequence.from_dict({"c": t})
+                            reg = _region_class()(["c"] * len(ex), starts, stops, strands)
+                            out = [gs.extract_intervals(reg, stranded=True).tolist()]
+                            gi = bnp.Genome.from_dict({"c": len(t)}).get_intervals(reg, stranded=True)
+                            out.append(gs[gi].tolist())
+                            return out
+                        o = outcome(text_strand)
+                        n += 1
+                        if o[0] != "ok" or [[_up(x) for x in q] for q in o[1]] != [[_up(w) for w in wv]] * 2:
+                            bad.append({"what": "stranded extraction with the strand held as a text column differs from subsequence / reverse complement",
+                                        "tags": {"op": "extract-text-strand", "encoding": ename}, "group": {"op": "extract-text-strand"},
+                                        "vectors": [g[i]], "expected": [_up(w) for w in wv], "observed": str(o)[:400]})
+
                         def through_intervals():
                             # the same extraction through GenomicIntervals: as given, two sets joined, and the single base at each strand-aware start
                             from bionumpy.genomic_data import GenomicSequence
@@ -230,12 +264,13 @@ def check_order(job):
     from bionumpy.sequence import get_reverse_complement
     from bionumpy.encodings.alphabet_encoding import ACGTnEncoding
     perm, vecs = job
-    encs = {"ascii": None, "ACGT": bnp.DNAEncoding, "ACGTN": ACGTnEncoding}
+    from bionumpy.encodings.alphabet_encoding import ACTGEncoding
+    encs = {"ascii": None, "ACGT": bnp.DNAEncoding, "ACGTN": ACGTnEncoding, "ACTG": ACTGEncoding}
     bad, n = [], 0
     for pos, ename in enumerate(perm):
         for v in vecs:
             t, want = "".join(v["s"]), "".join(v["rc"])
-            if ename == "ACGT" and "N" in t.upper():
+            if ename in ("ACGT", "ACTG") and "N" in t.upper():
                 continue
             enc = encs[ename]
             o = outcome(lambda: get_reverse_complement(bnp.as_encoded_array(t, enc) if enc is not None else bnp.as_encoded_array(t)).to_string())
